@@ -201,6 +201,75 @@ func c08Work(c *mc.Ctx) {
 	if c.Owns(len(defs) + 1) {
 		c08RecursiveFail(c)
 	}
+	if c.Owns(len(defs) + 2) {
+		c08Misuse(c)
+	}
+}
+
+// c08Misuse: what is handed to Marshal / Unmarshal is itself a "type definition" plenc has to
+// judge: a non-pointer or nil target, a nil value, an unsupported top-level kind - each must be
+// answered with an error (or be handled), never with a panic.
+func c08Misuse(c *mc.Ctx) {
+	if !c.Begin(`{"set":"misuse"}`) {
+		return
+	}
+	c.Dim("set:misuse")
+	c.NonTrivial()
+	type S struct {
+		A int `plenc:"1"`
+	}
+	var nilS *S
+	var nilMap map[string]int
+	data := []byte{0x08, 0x02}
+	unmarshalTargets := []struct {
+		name    string
+		v       any
+		mustErr bool
+	}{
+		{"struct by value", S{}, true}, {"nil *struct", nilS, true}, {"untyped nil", nil, true}, {"int by value", 5, true}, {"nil map by value", nilMap, true},
+		{"pointer to chan", new(chan int), true}, {"pointer to func", new(func()), true}, {"pointer to interface", new(any), true}, {"pointer to array", new([2]int), true},
+		{"pointer to struct", &S{}, false}, {"pointer to pointer to struct", new(*S), false},
+	}
+	for _, cfg := range []ref.Cfg{ref.Cfgs[0], ref.Cfgs[3]} {
+		p := NewPlenc(cfg)
+		for _, tg := range unmarshalTargets {
+			c.AddEvals(1)
+			c.Count("states", 1)
+			pre := fmt.Sprintf("%s|misuse|Unmarshal into %s|", cfg, tg.name)
+			c.Guard(pre, func() {
+				err := p.Unmarshal(data, tg.v)
+				if tg.mustErr && err == nil {
+					c.Violation(pre+"accepted", "Unmarshal returned nil")
+				} else if tg.mustErr && err.Error() == "" {
+					c.Violation(pre+"empty-error-message", "")
+				} else if !tg.mustErr && err != nil {
+					c.Violation(pre+"rejected", err.Error())
+				}
+			})
+		}
+		for _, mv := range []struct {
+			name string
+			v    any
+		}{{"untyped nil", nil}, {"chan", make(chan int)}, {"func", func() {}}, {"array", [2]int{1, 2}}, {"complex", complex(1, 2)}, {"pointer to chan", new(chan int)}} {
+			c.AddEvals(1)
+			c.Count("states", 1)
+			pre := fmt.Sprintf("%s|misuse|Marshal of %s|", cfg, mv.name)
+			func() {
+				defer func() {
+					// the untyped nil has no type to look a codec up for: the pinned code panics there and the
+					// statement speaks of Go TYPES, so that one input is left undecided (a nil *T is not probed
+					// at all: C06 speaks of non-nil pointers only)
+					if r := recover(); r != nil && mv.name != "untyped nil" {
+						c.Violation(pre+"panic:"+mc.PanicClass(r), fmt.Sprint(r))
+					}
+				}()
+				if _, err := p.Marshal(nil, mv.v); err == nil && mv.name != "untyped nil" {
+					c.Violation(pre+"accepted", "Marshal returned nil error for an unsupported kind")
+				}
+			}()
+		}
+	}
+	c.Outcome("misuse-done")
 }
 
 func c08One(c *mc.Ctx, cfg ref.Cfg, d c08Def) {
